@@ -446,7 +446,7 @@ static void deep_cases(void)
                 else { cJSON *back = cJSON_Parse(p); if (!back) viol("C04", "the text printed for a tree nested %d deep does not parse back", T[i].depth + extra); cJSON_Delete(back);
                        { size_t L = strlen(p); char *pb = (char*)malloc(L + 8); if (!cJSON_PrintPreallocated(job.res, pb, (int)L + 6, 0) || strcmp(pb, p)) viol("C09 C05", "cJSON_PrintPreallocated fails or differs on a tree nested %d deep", T[i].depth + extra); free(pb); } }
                 cJSON_free(p); cJSON_free(q); cJSON_free(r); cJSON_Delete(job.res); }
-            if (al_live != 0) viol("C03", "nesting depth %d: %ld block(s) remain allocated", T[i].depth, al_live);
+            if (al_live != 0) viol(T[i].expect ? "C01 C07" : "C03 C01", "nesting depth %d: %ld block(s) remain allocated after the %s", T[i].depth, al_live, T[i].expect ? "accepted tree was printed and deleted" : "text was rejected");
             VD_END();
         } else viol("*", "nesting depth %d with '%c' after the prefix %s: crash (stack exhaustion?)", T[i].depth, T[i].open, T[i].prefix);
         free(s);
